@@ -37,3 +37,62 @@ Proof. vm_compute. eexists. reflexivity. Qed.
 
 Lemma message_tags_ok : tag_ok request_tag /\ tag_ok response_tag.
 Proof. split; apply tag_ok_b_sound; vm_compute; reflexivity. Qed.
+
+(* ---------- the hypotheses of the round-trip theorem are satisfiable (non-vacuity) ---------- *)
+Definition request_fl : flist :=
+  Eval vm_compute in match inst_T "Request" with Some (_, fl) => fl | None => FNil end.
+
+Lemma request_fl_ok : inst_T "Request" = Some (request_tag, request_fl).
+Proof. vm_compute. reflexivity. Qed.
+
+(* a Create request: version 1.4, one batch item with unique id, operation Create whose payload is
+   dispatched on the operation, a template attribute holding an attribute whose value is dispatched on
+   its name (an Enumeration), an Integer attribute, and a Name structure attribute held through a pointer *)
+Definition golden_request : val :=
+  let sf := set_field inst_T in
+  let zs := zero_struct inst_T in
+  let attr n v := sf (sf (zs "Attribute") "Name" (VStr (bytes_of_string n))) "Value" v in
+  let name := sf (sf (zs "Name") "Value" (VStr (bytes_of_string "key-1"))) "Type" (VEnum 1) in
+  let ta := sf (zs "TemplateAttribute") "Attributes"
+               (VList (VCons (attr "Cryptographic Algorithm" (VEnum 3))
+                      (VCons (attr "Cryptographic Length" (VInt 256))
+                      (VCons (attr "Name" (VPtr name)) VNone)))) in
+  let payload := sf (sf (zs "CreateRequest") "ObjectType" (VEnum 2)) "TemplateAttribute" ta in
+  let item := sf (sf (sf (zs "RequestBatchItem") "Operation" (VEnum 1)) "UniqueID" (VBytes (bytes_of_string "id-0")))
+                 "RequestPayload" (VPtr payload) in
+  let ver := sf (sf (zs "ProtocolVersion") "Major" (VInt 1)) "Minor" (VInt 4) in
+  let hdr := sf (sf (sf (zs "RequestHeader") "Version" ver) "ClientCorrelationValue" (VStr (bytes_of_string "ccv")))
+                "BatchCount" (VInt 1) in
+  sf (sf (zs "Request") "Header" hdr) "BatchItems" (VList (VCons item VNone)).
+
+Definition golden_fields : vlist :=
+  Eval vm_compute in match golden_request with VStruct _ vs => vs | _ => VNone end.
+
+Example golden_request_wf : wf inst_T (SStruct "Request" request_fl) VNil (VStruct "Request" golden_fields).
+Proof. apply wf_b_wf. vm_compute. reflexivity. Qed.
+
+Example golden_request_encodes : exists b, inst_enc_top (VStruct "Request" golden_fields) = Some b /\ (64 <= blen b)%N.
+Proof. vm_compute. eexists. split; [reflexivity|discriminate]. Qed.
+
+(* the theorem applied to it: non-vacuous *)
+Example golden_request_roundtrips : exists b,
+  inst_enc_top (VStruct "Request" golden_fields) = Some b /\
+  dec_top "Request" request_tag request_fl {| rest := b; last := 0 |}
+  = Ok (VStruct "Request" (normalize_fields inst_T request_fl golden_fields), blen b, {| rest := []; last := 0 |}).
+Proof.
+  destruct golden_request_encodes as [b [He _]]. exists b. split; [exact He|].
+  pose proof (roundtrip_top inst_T inst_codec_env_ok "Request" request_tag request_fl golden_fields b []
+                request_fl_ok (proj1 message_tags_ok) golden_request_wf He) as H.
+  rewrite app_nil_r in H. exact H.
+Qed.
+
+(* the computable hypothesis of C01 for a top-level value, for the correspondence driver *)
+Definition inst_wf_b (v : val) : bool :=
+  match v with
+  | VStruct ty vs | VPtr (VStruct ty vs) =>
+      match inst_T ty with
+      | Some (tag, fl) => tag_ok_b tag && wf_b inst_T (SStruct ty fl) VNil (VStruct ty vs)
+      | None => false
+      end
+  | _ => false
+  end.
